@@ -8,13 +8,13 @@ NOTE = ("Trusted base: go/ssa (x/tools v0.29.0) translation of the current sourc
         "listed in the evidence file; the Go toolchain for native replay. Verdicts are bounded: nothing is claimed outside the bounds in the evidence file.")
 
 CHECKS = {
- "C01": "For 8 route-table histories, every request path up to the length bound (all byte values) and every method (names, empty, arbitrary 3-byte strings) is executed symbolically through Router.ServeHTTP; at the CallFunc the reported pattern must be live in an independent table model, the handler must be the one registered for (pattern, method), the path must equal the pattern with the reported parameters substituted (own tokenizer), every value must satisfy its rule over its whole length, and the parameter key set must be exactly the pattern's capturing names; 404 must carry no parameters. z3 decides each assertion for all inputs of the path class at once.",
+ "C01": "For 25 route-table histories (incl. non-ASCII literals, ignored parameters, >=5-sibling shapes, removals and cleans), every request path up to the length bound (all byte values) and every method (names, empty, arbitrary 3-byte strings) is executed symbolically through Router.ServeHTTP; at the CallFunc the reported pattern must be live in an independent table model, the handler must be the one registered for (pattern, method), the path must equal the pattern with the reported parameters substituted (own tokenizer), every value must satisfy its rule over its whole length, and the parameter key set must be exactly the pattern's capturing names; 404 must carry no parameters. z3 decides each assertion for all inputs of the path class at once.",
  "C02": "The outcome of Router.ServeHTTP on a symbolic path is compared, for all inputs at once, with the set of admissible outcomes of a reference resolver that works on the pattern strings only (literal > interceptor > regexp > named, shortest capture up to the shared literal suffix, fall back, never widen) on 16 add-only tables in two registration orders, including the >=5-sibling first-byte index.",
- "C03": "Every history (bounded length) of Handle/Remove/Clean/Prefix.Clean/Resource.Clean over four scenarios is explored by forking on operation selectors; after the last step Routes() is compared with a table model, every pattern's witness request with 5 methods is compared with the documented resolution over the live table, and the same symbolic request is served before and after the step (2-safety: a removal must not change a request that was dispatched to a route the step does not name).",
- "C04": "Every bounded history over two operation alphabets built to split nodes after methods were registered, with and without WithTrace and in both map iteration orders: for every live pattern the Allow header of OPTIONS and of 405 (read through the node the builder captured), Node().Methods()/AllowHeader() and Routes() must equal the documented set, for every request reaching the route (symbolic parameter values); OPTIONS * is checked on every state including the brand-new router. Mostly selector-driven: an exhaustive bounded exploration of the real SSA with small solver queries.",
+ "C03": "Every history (bounded length) of Handle/Remove/Clean/Prefix.Clean/Resource.Clean over ten scenarios is explored by forking on operation selectors; before every step and after the last one Routes() and strict URL building of every live and removed pattern are compared with a table model, every pattern's witness request with 5 methods is compared with the documented resolution over the live table, and the same symbolic request is served before and after the step (2-safety: a removal must not change a request that was dispatched to a route the step does not name).",
+ "C04": "Every bounded history over four operation alphabets built to split nodes after methods were registered, with and without WithTrace and in both map iteration orders: for every live pattern the Allow header of OPTIONS and of 405 (read through the node the builder captured), Node().Methods()/AllowHeader() and Routes() must equal the documented set, for every request reaching the route (symbolic parameter values); OPTIONS * is checked on every state including the brand-new router. Mostly selector-driven: an exhaustive bounded exploration of the real SSA with small solver queries.",
  "C05": "Every potential runtime fault (index, slice bound, nil dereference, nil map write, failed type assertion, nil call) on every symbolic path is raised by the executor and reported if it can escape: Router.ServeHTTP with arbitrary path and method bytes on 8 table histories, Group.ServeHTTP with Hosts/version/And matchers, Hosts.Match, the path-version matcher, and CheckSyntax/URL/Router.URL/Handle on every pattern string up to the bound (Handle must register or panic with an error value and agree with CheckSyntax).",
  "C08": "HEAD vs GET with the handler's write sizes as symbolic 64-bit ints: z3 decides that Content-Length equals the sum of the sizes written, that no body byte reaches the client and that status and headers equal GET's; all bounded histories of adding/removing GET/POST/DELETE with removal lists containing HEAD, OPTIONS and the empty string against the table model; Handle with every method string up to the bound.",
- "C17": "One Handle call (pattern pool incl. name/'-'/rule variants and malformed patterns x method lists incl. reserved, duplicate and arbitrary method strings) on four tables; for a rejected call Routes(), all Allow headers and the outcome of the same symbolic request are compared before/after (2-safety); the accept/reject clauses are checked against an independent shape comparison.",
+ "C17": "One Handle call (pattern pool incl. name/'-'/rule variants and malformed patterns x method lists incl. reserved, duplicate and arbitrary method strings) on five tables (optionally after an earlier rejected call); for a rejected call Routes(), all Allow headers and the outcome of the same symbolic request are compared before/after (2-safety); the accept/reject clauses are checked against an independent shape comparison.",
  "C06": "Router with WithLock(true): writer x reader pairs (and triples) run as logical threads inside the symbolic executor; the schedule is a symbolic choice taken at every lock operation, so all interleavings at synchronisation granularity are explored, and a vector-clock happens-before monitor watches every heap access the interpreted mux code makes (field/element granularity, whole-map granularity for maps): two conflicting accesses unordered by happens-before are a data race. Each response must be admissible for some sequential state. Races are confirmed natively under go test -race before they are reported.",
  "C07": "Sequential isolation: a brand-new router's answers are compared before and after every bounded sequence of operations on other routers, a Hosts matcher and a Group; pooled contexts: consecutive requests with symbolic paths must each see exactly their own parameters (C01 oracle); concurrency: distinct instances mutated in parallel and parallel requests on a quiescent router (with/without WithLock) run as logical threads under the happens-before monitor.",
  "C09": "Every bounded program of Use/Handle/Prefix/nested Prefix/Resource/Any calls (and Group.Use/New/Add programs), with and without WithTrace, both map iteration orders; then every handler kind of every route is invoked and its middleware chain (a value carried by the handler type), the factory arguments and the number of factory invocations are compared with the documented onion order computed from the program text. No data dimension: exhaustive bounded exploration of the real SSA.",
@@ -25,7 +25,7 @@ CHECKS = {
  "C14": "Hosts.Match on every symbolic ASCII Host after every bounded Add/Delete/RegisterInterceptor history, compared with an own normaliser plus the C02 reference resolver over the lower-cased live domains, including the reported parameters.",
  "C15": "Path-version matcher with symbolic version strings and symbolic path against a reference (normalise, first listed prefix wins, strip exactly the segment, record '/<version>', untouched on reject); header-version matcher on a table of Accept headers and on 'a/b; key=' + symbolic token bytes.",
  "C16": "Every sequence of requests of 7 kinds, panicking or not with a symbolic panic value, on Router/Group with and without a recovery option: the recovery function gets exactly that value exactly once, nothing escapes, later requests are served normally; without the option the same value reaches the caller.",
- "C18": "TRACE with every symbolic path on 8 table histories with and without WithTrace (handler, exact middleware chain, Allow sets, manual registration), and the bundled Trace helper with a nondeterministic request dump: status, Content-Type in the header snapshot taken at WriteHeader, escaped body, error passthrough.",
+ "C18": "TRACE with every symbolic path on 25 table histories with and without WithTrace (handler, exact middleware chain, Allow sets, manual registration), and the bundled Trace helper with a nondeterministic request dump: status, Content-Type in the header snapshot taken at WriteHeader, escaped body, error passthrough.",
  "C19": "Every bounded program of facade calls is run through Prefix/Resource objects on one router and as its mechanical desugaring into Router calls on another; Routes(), the outcome of the same symbolic request (handler, pattern, parameters, middleware chain, status, Allow) and the URL methods must agree, and Prefix.Clean must remove exactly the model's patterns with that prefix.",
  "C20": "Params accessors after every bounded Set/Delete/Reset/Destroy+NewContext sequence with symbolic keys and values against a shadow list; Int/Uint/Bool (+Must*) against strconv executed symbolically from its own SSA for every string up to the bound plus edge-case seeds; Float on seeds; a context from the pool starts empty.",
 }
